@@ -97,7 +97,9 @@ class LibraryFlatten(Family):
                 for refocus in (True, False):
                     for pat in (0, 1):
                         out.append(('single', d, n, refocus, pat))
-        lists = [(0,), (1,), (2,), (0, 1), (2, 1), (3, 0, 1)] if tier == 'quick' else [(0,), (1,), (2,), (3,), (0, 1), (1, 0), (2, 1), (3, 0, 1), (0, 2, 4), (4, 1)]
+        # one long experiment: the flattened circuit is a single deep relation graph (hundreds of relation steps)
+        out.append(('single', 2, 30 if tier == 'quick' else 60, True, 0))
+        lists = [(0,), (1,), (2,), (0, 1), (2, 1), (3, 0, 1), (4, 3)] if tier == 'quick' else [(0,), (1,), (2,), (3,), (0, 1), (1, 0), (2, 1), (3, 0, 1), (0, 2, 4), (4, 1)]
         for d in (2, 3) if tier != 'quick' else (2,):
             for l in lists:
                 out.append(('multi', d, l, True, 0))
@@ -121,6 +123,21 @@ class LibraryFlatten(Family):
             c = construct_repetition_code_circuit(qec_cycles=n, description=desc, initial_state=init)
         else:
             c = construct_repetition_code_multi_round_circuit(qec_cycles=list(n), description=desc, initial_state=init)
+            # the multi-round constructor relies on apply_modifiers() + flatten() per round: its program must be the
+            # concatenation of the single-round programs (each modifier-applied), a TICK after each, then the calibration circuit
+            from qce_circuit.library.state_calibration.circuit_constructors import construct_calibration_circuit
+            from qce_circuit.library.state_calibration.circuit_components import CalibrationDescription, CalibrateType
+            want = []
+            for r in n:
+                want += expand(to_stim(construct_repetition_code_circuit(qec_cycles=r, description=desc, initial_state=init).apply_modifiers())) + [('TICK', (), ())]
+            cmap = desc.circuit_channel_map
+            want += expand(to_stim(construct_calibration_circuit(CalibrationDescription(
+                _qubit_ids=desc.calibration_qubit_ids, _qubit_index_map={v: k for k, v in cmap.items()}, _type=CalibrateType.QUTRIT))))
+            got = expand(to_stim(c))
+            if got != want:
+                k = next((i for i, (a, b) in enumerate(zip(got, want)) if a != b), min(len(got), len(want)))
+                res.fail('C11-multi-round-program', 'constructor input %r: the multi-round program is not the concatenation of its rounds: #%d %r vs %r (lengths %d / %d)' % (
+                    case, k, got[k] if k < len(got) else None, want[k] if k < len(want) else None, len(got), len(want)))
         world.clear_memo()
         c = c.apply_modifiers()
         rows0 = full_rows(c)
